@@ -1104,3 +1104,65 @@ func HasStringOps(ts ...*Term) bool {
 	}
 	return false
 }
+
+// Subst replaces free symbols (by name) and returns the rebuilt term (no re-simplification).
+func Subst(t *Term, repl map[string]*Term) *Term {
+	memo := map[int]*Term{}
+	var walk func(x *Term) *Term
+	walk = func(x *Term) *Term {
+		if r, ok := memo[x.ID]; ok {
+			return r
+		}
+		var out *Term
+		switch {
+		case x.Op == "var":
+			if r, ok := repl[x.Name]; ok {
+				out = r
+			} else {
+				out = x
+			}
+		case len(x.Args) == 0:
+			out = x
+		default:
+			changed := false
+			na := make([]*Term, len(x.Args))
+			for i, a := range x.Args {
+				na[i] = walk(a)
+				if na[i] != a {
+					changed = true
+				}
+			}
+			if !changed {
+				out = x
+			} else {
+				out = mk(&Term{Op: x.Op, Args: na, Sort: x.Sort, Val: x.Val, B: x.B, S: x.S, Name: x.Name, I0: x.I0, I1: x.I1})
+			}
+		}
+		memo[x.ID] = out
+		return out
+	}
+	return walk(t)
+}
+
+// UFApps collects the applications of the named uninterpreted functions below the terms.
+func UFApps(names map[string]bool, ts ...*Term) []*Term {
+	seen := map[int]bool{}
+	var out []*Term
+	var walk func(x *Term)
+	walk = func(x *Term) {
+		if seen[x.ID] {
+			return
+		}
+		seen[x.ID] = true
+		if x.Op == "uf" && names[x.Name] {
+			out = append(out, x)
+		}
+		for _, a := range x.Args {
+			walk(a)
+		}
+	}
+	for _, t := range ts {
+		walk(t)
+	}
+	return out
+}
